@@ -222,6 +222,21 @@ CLAIMED = {
         technique="static analysis: loop-bound shape rule per subscript axis over canonical keys with single-definition locals inlined; "
         "resolved-callee/argument check of the inverse transforms",
     ),
+    "C15": dict(
+        text="Static analysis of the current source; structural clauses of C15 only. Decides for SSRB(out, in, do_norm): each output sinogram "
+        "starts as a fresh empty sinogram, ACCUMULATES input sinograms (+=) and is stored once, in the same iteration of the output loop and "
+        "on every path; the accumulation runs over all input views, the tangential range common to both data sets, all axial positions and "
+        "TOF bins of the input, the output view being input view / (in_views / out_views) with error() for a non-divisible view count; the "
+        "output is divided only when normalisation was requested. For zoom_image (3D and 2D): each axis is interpolated with zoom = in size / "
+        "out size and offset = (out origin - in origin) / in size of THAT axis; the scaling switch covers every ZoomOptions::Scaling "
+        "enumerator (preserve_sum unscaled, preserve_values product of all zooms, preserve_projections product of the zooms except x); the "
+        "in-place and parameter-taking variants delegate to the one implementation with their own arguments in order. NOT decided: that "
+        "matching by get_m / get_k puts every input sinogram into the right output sinogram, count conservation, centre of mass, "
+        "uniformity (numerical, over runtime data).",
+        technique="static analysis: typestate of the output buffer (fresh/accumulate/store) by dominance and must-pass-through, normalised "
+        "loop descriptors against the data sets' own range accessors, closed-form algebra (sympy) on zoom/offset/scale expressions, switch "
+        "exhaustiveness, argument pass-through of delegating variants",
+    ),
     "C07": dict(
         text="Static analysis of OSMAPOSLReconstruction::update_estimate; thin structural part of C07 only. Decides: one subset number is "
         "drawn per sub-iteration and used both for the gradient-plus-sensitivity and for the subset sensitivity it is divided by; the "
@@ -247,7 +262,6 @@ CLAIMED = {
 }
 
 NOT_APPLICABLE = {
-    "C15": "conservation of sums / centre of mass over runtime data and floating-point matching of sinograms; nothing decidable from the shape of the code",
 }
 
 PENDING_REASON = "no static rule built for it yet in this framework (see DESIGN.md for the planned clauses); not claimed"
